@@ -255,19 +255,35 @@ func runCase(col sink, st *stepper, caseID string, f fault, rep int) {
 		col.Fatal(err.Error())
 		return
 	}
-	st.current = "StartSending"
-	c.StartSending() // sends params (1) and election (2)
-	// enough requests to reach the fault position, then the burst
+	// the channel the application obtained once, before anything happened: it is this very
+	// channel that has to be signalled by every later failure of this client
+	doneOnce := c.Done()
 	id := uint64(1)
 	pre := 4
 	if f.side == "recv-unused" {
 		pre = 0
 	}
+	heldBatch := rep%4 == 2 && (f.side == "send" || f.side == "recv") && f.burst >= 6
+	if heldBatch {
+		// the application queued a batch while the client was not sending yet: the held
+		// messages are flushed by StartSending, and the stream fails while that is going on
+		for k := 0; k < 8; k++ {
+			st.current = fmt.Sprintf("Q (request %d held before StartSending)", k+1)
+			c.Q(nhReq(id))
+			id++
+		}
+		pre = 0
+		col.Count("batches_held_before_start_sending", 1)
+	}
+	st.current = "StartSending"
+	c.StartSending() // sends params (1) and election (2)
+	// enough requests to reach the fault position, then the burst
 	for k := 0; k < pre; k++ {
 		st.current = fmt.Sprintf("Q (request %d before the burst)", k+1)
 		c.Q(nhReq(id))
 		id++
 	}
+	_ = doneOnce
 	if rep%2 == 1 {
 		time.Sleep(time.Duration(rep*150) * time.Microsecond) // let the fault land before the burst
 	}
@@ -464,6 +480,31 @@ func runCase(col sink, st *stepper, caseID string, f fault, rep int) {
 			}
 		}
 		col.Count("reset_reconnect_exchanges", 1)
+		if rep%2 == 0 && f.side != "send-late" {
+			// the second session fails as well: the application is told through the channel it has
+			// been watching since before the first session
+			for drained := false; !drained; {
+				select {
+				case <-doneOnce:
+				default:
+					drained = true
+				}
+			}
+			st.current = "waiting for Done after the second session failed"
+			fake.Last().Fail(status.Error(codes.Unavailable, "second session fails too"))
+			select {
+			case <-doneOnce:
+				col.Count("second_session_failures_signalled_on_the_same_done_channel", 1)
+			case <-time.After(25 * time.Second):
+				a := strings.Join(clientGoroutines(), ",")
+				time.Sleep(time.Second)
+				if b := strings.Join(clientGoroutines(), ","); a == b && !strings.Contains(a, "[running]") && !strings.Contains(a, "[runnable]") {
+					problem("done-never-signalled:second-session", "the second session (after Reset + Connect) failed, but the channel the application obtained from Done() before the first session is never signalled and no goroutine of the client is left that could signal it")
+					return
+				}
+				panic("watchdog")
+			}
+		}
 		st.current = "Close after Reset"
 		c.Close()
 	}
